@@ -4,6 +4,7 @@ package main
 // coq/ErrTransport/Model.v and Run.v).
 
 import (
+	"encoding/json"
 	"fmt"
 	"net/http"
 	"sort"
@@ -281,7 +282,11 @@ func coqCase(idx int, ci *caseInfo, ex *EpExtract, ob *rt.Obs, eps map[string]*E
 		goa = "(Some " + cs(g) + ")"
 	}
 	client := "CSkip"
-	switch ci.Class {
+	cls := ci.Class
+	if findingClass(ci) == "custom-error-body-override-drops-attributes" {
+		cls = "" // a Go struct cannot show a dropped required attribute as unset: server side only
+	}
+	switch cls {
 	case "declared", "custom", "wrapped_declared", "service_named_like_custom":
 		ce := ob.ClientErr
 		switch {
@@ -369,4 +374,93 @@ func coqTables(first int, it *built) []string {
 		}
 	}
 	return out
+}
+
+// coqFinalize prints, per declared error of the main-stream endpoints, the error type
+// and the response mapping as the design description states them, and the headers
+// (with required flags) and body goa computed for the row.
+func coqFinalize(first int, it *built) []string {
+	var out []string
+	d := it.bu.Design
+	for _, s := range d.Services {
+		for _, m := range s.Methods {
+			ex := it.eps[s.Name+"/"+m.Name]
+			if ex == nil {
+				continue
+			}
+			for _, e := range effective(d, s, m) {
+				if e.Resp == nil || len(e.Resp.Cookies) > 0 || (e.Resp.Body != nil && len(e.Resp.Body.Attrs) > 0) {
+					continue
+				}
+				if lt, ok := mappingLevelType(d, s, m, e.Def.Name); ok { // the mapping's level declares another type: finding
+					a, _ := json.Marshal(lt)
+					b, _ := json.Marshal(e.Def.T)
+					if string(a) != string(b) {
+						continue
+					}
+				}
+				var row *ErrEntry
+				for i := range ex.Errors {
+					if ex.Errors[i].Name == e.Def.Name {
+						row = &ex.Errors[i]
+					}
+				}
+				if row == nil {
+					continue
+				}
+				ty := "error_result"
+				if e.Def.T != nil {
+					if bt, _ := d.Base(e.Def.T); bt.Kind == "object" {
+						var as []string
+						for _, f := range d.AllFields(e.Def.T) {
+							as = append(as, "("+cs(f.Name)+", "+vh.CoqBool(f.Required)+")")
+						}
+						ty = "(mketype false true " + vh.CoqList(as) + ")"
+					} else {
+						ty = "(mketype false false [(\"\", true)])"
+					}
+				}
+				hs := make([]string, len(e.Resp.Headers))
+				for i, h := range e.Resp.Headers {
+					w := h.Wire
+					if w == "" {
+						w = h.Attr
+					}
+					hs[i] = "(" + cs(h.Attr) + ", " + cs(http.CanonicalHeaderKey(w)) + ")"
+				}
+				body := "DDefault"
+				if e.Resp.Body != nil {
+					if e.Resp.Body.Empty {
+						body = "DEmpty"
+					} else if e.Resp.Body.Attr != "" {
+						body = "(DAttr " + cs(e.Resp.Body.Attr) + ")"
+					}
+				}
+				decl := coqDecl(row) // mkdecl name status kind hdrs body
+				i1 := strings.Index(decl, " [")
+				if i1 < 0 {
+					continue
+				}
+				out = append(out, fmt.Sprintf("(%d%%N, %s, mkraw %s %s, %s)", first+len(out), ty, vh.CoqList(hs), body, splitHdrsBody(decl[i1+1:])))
+			}
+		}
+	}
+	return out
+}
+
+// splitHdrsBody turns "[hdrs] body" (the tail of a mkdecl term) into "[hdrs], body".
+func splitHdrsBody(tail string) string {
+	depth := 0
+	for i, c := range tail {
+		switch c {
+		case '[':
+			depth++
+		case ']':
+			depth--
+			if depth == 0 {
+				return tail[:i+1] + ", " + strings.TrimSpace(tail[i+1:])
+			}
+		}
+	}
+	return tail
 }
